@@ -2705,7 +2705,7 @@ func runHookAbortHistory0(st *cv.Stats, nCalls, nSubs, flakyPos int) (fail inter
 	var ops []string
 	addOp := func(coq, desc string) { ops = append(ops, coq); dops = append(dops, desc) }
 	res := runHookAbortHistory1(st, nCalls, nSubs, flakyPos, addOp)
-	if res == nil && len(ops) > 0 && ops[len(ops)-1] != "INCOMPLETE" {
+	if res == nil && len(ops) > 0 {
 		coqCase = fmt.Sprintf("CWs [%s]", strings.Join(ops, "; "))
 	} else {
 		dops = nil
@@ -2714,7 +2714,6 @@ func runHookAbortHistory0(st *cv.Stats, nCalls, nSubs, flakyPos int) (fail inter
 }
 
 func runHookAbortHistory1(st *cv.Stats, nCalls, nSubs, flakyPos int, addOp func(coq, desc string)) interface{} {
-	addOp("INCOMPLETE", "")
 	opsDone := false
 	var pendingOps [][2]string
 	op := func(coq, desc string) { pendingOps = append(pendingOps, [2]string{coq, desc}) }
